@@ -46,6 +46,8 @@ class _ObjClasses(dict):
             self["ParsedRequirement"] = (PA.ParsedRequirement, list(PA.ParsedRequirement._fields))
             from packaging import metadata as MD
             self["_Validator"] = (MD._Validator, ["name", "raw_name", "added"])
+            # --- x5
+            self["SpecifierSet"] = (SP.SpecifierSet, ["_specs", "_prereleases"])
 
     def __contains__(self, k):
         self._load()
@@ -79,9 +81,9 @@ def enc_val(v) -> str:
     if isinstance(v, list):
         return "L[" + ",".join(enc_val(x) for x in v) + "]"
     if isinstance(v, (set, frozenset)):        # x2: members sorted by wire form (hash-table order is not modelled)
-        return "O" + type(v).__name__ + "{items=L[" + ",".join(sorted(enc_val(x) for x in v)) + "]}"
+        return "O" + ("frozenset" if isinstance(v, frozenset) else "set") + "{items=L[" + ",".join(sorted(enc_val(x) for x in v)) + "]}"
     tn = type(v).__name__
-    if tn in OPAQUE_CLASSES:                      # x3: objects of other libraries / untracked classes, known by class and text
+    if tn in OPAQUE_CLASSES and tn not in TRANSPARENT:   # x3: objects of other libraries / untracked classes, known by class and text
         return "Oopaque{cls=" + enc_val(tn) + ",str=" + enc_val(str(v)) + "}"
     if tn == "NegativeInfinityType":
         return "m"
@@ -99,6 +101,9 @@ def enc_val(v) -> str:
 
 
 OPAQUE_CLASSES = {"SpecifierSet", "Requirement", "PurePosixPath", "PureWindowsPath"}
+# x5: classes that travel as objects (fields) while a function of X5_FUNCS is generated / run, although they are opaque for
+# the functions of other modules
+TRANSPARENT: set = set()
 
 
 class _P:
@@ -1229,6 +1234,222 @@ FUNCS.update({
 })
 
 
+# ------------------------------------------------------------------------------------------------ x5: SpecifierSet
+import contextlib
+
+
+@contextlib.contextmanager
+def _transparent(name):
+    """while a function of X5_FUNCS is generated / answered, SpecifierSet objects travel with their fields"""
+    if name in X5_FUNCS:
+        TRANSPARENT.update({"SpecifierSet"})
+        try:
+            yield
+        finally:
+            TRANSPARENT.difference_update({"SpecifierSet"})
+    else:
+        yield
+
+
+class _OrderedFS(frozenset):
+    """a frozenset that iterates in a given order (what `PySet.order env` computes on the Lean side)"""
+    def __new__(cls, items, order):
+        o = frozenset.__new__(cls, items)
+        o._order = list(order)
+        return o
+
+    def __iter__(self):
+        return iter(self._order)
+
+
+def _order_by(prio, members):
+    """PySet.orderBy: members of prio that are in the set (in the order of prio), then the others in insertion order; the
+    insertion order of a set that travelled is the order of the wire forms; equality is that of the wire forms"""
+    ms = sorted(members, key=enc_val)
+    wire = {enc_val(m): m for m in ms}
+    pw = [enc_val(p) for p in prio]
+    return [wire[w] for w in pw if w in wire] + [m for m in ms if enc_val(m) not in pw]
+
+
+def _apply_order(env, vals):
+    prio = dict(env).get("frozenset.order")
+    out = []
+    for v in vals:
+        if type(v).__name__ == "SpecifierSet" and isinstance(getattr(v, "_specs", None), frozenset):
+            order = _order_by(prio, v._specs) if prio is not None else sorted(v._specs, key=enc_val)
+            v._specs = _OrderedFS(v._specs, order)
+        out.append(v)
+    return out
+
+
+def _sset_members(rng):
+    """0–4 Specifier objects around one version, some equal under `_canonical_spec` but spelled differently"""
+    from packaging import specifiers as SP
+    from gen import versions as GV
+    from gen import specrel as R
+    n = rng.choice([0, 1, 1, 2, 2, 3, 4])
+    ms, base = [], None
+    for _ in range(n):
+        sp, v = _spec_obj(rng)
+        base = base or v
+        ms.append(sp)
+        if rng.random() < 0.3:                    # the same clause again: other spelling / other override
+            op, ver = sp._spec
+            alt = rng.choice([ver + ".0" if op not in ("===", "~=") and not ver.endswith(".*") else ver, ver.upper(), " " + ver])
+            try:
+                ms.append(SP.Specifier(op + alt, prereleases=rng.choice([None, True, False])))
+            except Exception:
+                pass
+    rng.shuffle(ms)
+    return ms, base
+
+
+def _sset_obj(rng):
+    from packaging import specifiers as SP
+    from gen import versions as GV
+    ms, base = _sset_members(rng)
+    s = SP.SpecifierSet(ms, prereleases=rng.choice([None, None, None, True, False]))
+    return s, (base if base is not None else GV.struct(rng))
+
+
+def _order_env(rng, s):
+    members = list(s._specs)
+    rng.shuffle(members)
+    r = rng.random()
+    if r < 0.1:
+        members = members[: len(members) // 2]       # a partial priority list: the rest follows in insertion order
+    return Env([("frozenset.order", members)]) if r < 0.95 else Env([])
+
+
+def _g_sset_self(rng):
+    return [_sset_obj(rng)[0]]
+
+
+def _g_sset_self_env(rng):
+    s = _sset_obj(rng)[0]
+    return [_order_env(rng, s), s]
+
+
+def _g_sset_init(rng):
+    from packaging import specifiers as SP
+    ms, _ = _sset_members(rng)
+    r = rng.random()
+    if r < 0.55:
+        parts = [str(m) for m in ms]
+        parts = [rng.choice(["", " ", "\t"]) + p + rng.choice(["", " ", "\u2003"]) for p in parts]
+        if rng.random() < 0.3:
+            parts.insert(rng.randrange(len(parts) + 1), rng.choice(["", " ", "\u00a0"]))
+        if rng.random() < 0.2:
+            parts.insert(rng.randrange(len(parts) + 1), rng.choice(["1.0", "=>1", "==1.*.0", "~=1", "<1.0+local", "===", "== 1;", "!1"]))
+        spec = ",".join(parts)
+    elif r < 0.9:
+        spec = rng.choice([list(ms), tuple(ms), iter(list(ms))])
+    else:
+        spec = rng.choice([None, 3, []])          # members other than Specifier are outside the annotation (trusted)
+    return [object.__new__(SP.SpecifierSet), spec, rng.choice([None, None, True, False])]
+
+
+def _g_sset_setter(rng):
+    return [_sset_obj(rng)[0], rng.choice([None, True, False])]
+
+
+def _sset_other(rng, s):
+    from packaging import specifiers as SP
+    r = rng.random()
+    if r < 0.3:                                   # the same members, re-spelled through the string form
+        try:
+            return SP.SpecifierSet(",".join(str(m) for m in s._specs), prereleases=rng.choice([None, True, False]))
+        except Exception:
+            return _sset_obj(rng)[0]
+    if r < 0.65:
+        return _sset_obj(rng)[0]
+    if r < 0.8:
+        return str(rng.choice([s, _sset_obj(rng)[0]]))
+    if r < 0.9 and s._specs:
+        return rng.choice(sorted(s._specs, key=str))
+    return rng.choice([None, 1, "junk", "", ["==1"]])
+
+
+def _g_sset_two(rng):
+    s = _sset_obj(rng)[0]
+    return [s, _sset_other(rng, s)]
+
+
+def _g_sset_contains(rng):
+    s, v = _sset_obj(rng)
+    item = _cand(rng, v)
+    r = rng.random()
+    if r < 0.2:
+        item = str(item)
+    elif r < 0.25:
+        item = rng.choice(["junk", "", "1.0.x"])
+    return [_order_env(rng, s), s, item, rng.choice([None, None, True, False]), rng.choice([None, None, True, False])]
+
+
+def _g_sset_dunder_contains(rng):
+    return _g_sset_contains(rng)[:3]
+
+
+def _g_sset_filter(rng):
+    s, v = _sset_obj(rng)
+    items = [_cand(rng, v) for _ in range(rng.choice([0, 1, 2, 3, 4, 6]))]
+    if rng.random() < 0.25:
+        items = [str(x) if rng.random() < 0.5 else x for x in items]
+    if rng.random() < 0.05:
+        items.insert(rng.randrange(len(items) + 1), "junk")
+    return [_order_env(rng, s), s, items, rng.choice([None, None, None, True, False])]
+
+
+def _g_spec_self(rng):
+    return [_spec_obj(rng)[0]]
+
+
+def _g_spec_two(rng):
+    from packaging import specifiers as SP
+    a, _ = _spec_obj(rng)
+    op, ver = a._spec
+    r = rng.random()
+    if r < 0.35:
+        alt = rng.choice([ver + ".0" if op not in ("===", "~=") and not ver.endswith(".*") else ver, ver.upper(), " " + ver, ver])
+        try:
+            b = SP.Specifier(op + alt, prereleases=rng.choice([None, True, False]))
+        except Exception:
+            b = a
+    elif r < 0.6:
+        b = _spec_obj(rng)[0]
+    elif r < 0.85:
+        b = rng.choice([str(a), op + " " + ver, ver, "junk", "", "==1.0"])
+    else:
+        b = rng.choice([None, 1, (op, ver)])
+    return [a, b]
+
+
+_SP = "packaging.specifiers"
+FUNCS.update({
+    "Specifier.__str__": (_SP, "Specifier.__str__", _g_spec_self),
+    "Specifier._canonical_spec": (_SP, "Specifier._canonical_spec", _g_spec_self),
+    "Specifier.__hash__": (_SP, "Specifier.__hash__", _g_spec_self),
+    "Specifier.__eq__": (_SP, "Specifier.__eq__", _g_spec_two),
+    "SpecifierSet.__init__": (_SP, "SpecifierSet.__init__", _g_sset_init),
+    "SpecifierSet.prereleases": (_SP, "SpecifierSet.prereleases", _g_sset_self_env),
+    "SpecifierSet.prereleases__set": (_SP, "SpecifierSet.prereleases.fset", _g_sset_setter),
+    "SpecifierSet.__str__": (_SP, "SpecifierSet.__str__", _g_sset_self_env),
+    "SpecifierSet.__hash__": (_SP, "SpecifierSet.__hash__", _g_sset_self),
+    "SpecifierSet.__and__": (_SP, "SpecifierSet.__and__", _g_sset_two),
+    "SpecifierSet.__eq__": (_SP, "SpecifierSet.__eq__", _g_sset_two),
+    "SpecifierSet.__len__": (_SP, "SpecifierSet.__len__", _g_sset_self),
+    "SpecifierSet.__iter__": (_SP, "SpecifierSet.__iter__", _g_sset_self_env),
+    "SpecifierSet.__contains__": (_SP, "SpecifierSet.__contains__", _g_sset_dunder_contains),
+    "SpecifierSet.contains": (_SP, "SpecifierSet.contains", _g_sset_contains),
+    "SpecifierSet.filter": (_SP, "SpecifierSet.filter", _g_sset_filter),
+})
+X5_FUNCS = {n for n in FUNCS if n.startswith("SpecifierSet.")}
+ORDER_FUNCS = {"SpecifierSet.prereleases", "SpecifierSet.__str__", "SpecifierSet.__iter__", "SpecifierSet.__contains__",
+               "SpecifierSet.contains", "SpecifierSet.filter"}
+SETTER_FUNCS = {"SpecifierSet.prereleases__set"}
+SYM_HASH_FUNCS.update({"Specifier.__hash__": _SP, "SpecifierSet.__hash__": _SP})
+
+
 class _Src:
     def cases(self, rng, n, names):
         """n `src.call` cases spread over the named functions"""
@@ -1236,7 +1457,9 @@ class _Src:
         for i in range(n):
             name = names[i % len(names)]
             args = FUNCS[name][2](rng)
-            yield ("src.call", [name] + [enc_val(a) for a in args])
+            with _transparent(name):                                     # x5
+                case = ("src.call", [name] + [enc_val(a) for a in args])
+            yield case
 
     def real(self, args):
         name = args[0]
@@ -1247,6 +1470,8 @@ class _Src:
             return "gone " + type(e).__name__
         vals = [dec_val(a) for a in (args[2:] if name in EXT_FUNCS else args[1:])]     # the oracle table is not decoded
         undo = None
+        if name in ORDER_FUNCS:                                           # x5: the iteration order of frozenset fields
+            vals = _apply_order(vals.pop(0), vals)
         if name in ENV_FUNCS:
             env = vals.pop(0)
             undo = _apply_env([(k, (list(v) if k == "platform_tags" else v)) for k, v in env])
@@ -1272,9 +1497,10 @@ class _Src:
                 r = f(*pos, **kw)
                 if name in STATE_FUNCS:
                     return "ok " + enc_val((r, pos[0]))
-                if name.endswith(".__init__"):
+                if name.endswith(".__init__") or name in SETTER_FUNCS:
                     r = pos[0]                     # x3: the translated `__init__` hands back the initialised object
-                return "ok " + enc_val(r)          # a generator's body runs here, inside the try
+                with _transparent(name):           # x5
+                    return "ok " + enc_val(r)      # a generator's body runs here, inside the try
         except RecursionError:
             return core.RESOURCE_LIMIT
         except Exception as e:
